@@ -56,6 +56,10 @@ class Recorder:
     # epoch = stretch of the study's life between two losses of stored state
     self.epoch = {}  # token -> trial id it was delivered under
     self.epoch_ids = collections.defaultdict(set)  # id -> tokens delivered
+    # ids given this epoch that were above max_trial_id at a later update: the
+    # loader had the opportunity to forget them before the id was re-issued
+    self.prunable_ids = set()
+    self.prunable_ids_before = set()
     self.md_lost = False  # stored state lost since the last persisted dump
     self.deleted_any = False
     self.reported = set()  # (clause, token) already reported
@@ -164,6 +168,7 @@ class Recorder:
       # stored state was lost: the algorithm starts over, so does its life
       self.epoch = {}
       self.epoch_ids = collections.defaultdict(set)
+      self.prunable_ids = set()
       self.md_lost = False
       self.reported = {r for r in self.reported
                        if r[0] not in ('missed', 'twice')}
@@ -171,6 +176,8 @@ class Recorder:
         self.seen_fresh_after_loss = True
     received = set(designer.received)
     max_id = max([v.id for v in truth.values()] or [0])
+    self.prunable_ids_before = set(self.prunable_ids)
+    self.prunable_ids |= {i for i in self.epoch_ids if i > max_id}
     for k in sorted(set(c_tok) & received):
       self._v('twice', 'lineage', 'token %d already in the restored '
               'algorithm state; %s' % (k, ctx), key=k)
@@ -182,7 +189,10 @@ class Recorder:
     for k in sorted(g_completed - have_lineage):
       tid = truth[k].id
       if self.epoch_ids.get(tid, set()) - {k}:
-        why = 'id_reused_after_delete'
+        # known finding only when the id was re-issued before any update could
+        # see that it had become free
+        why = ('id_reused_after_prune_opportunity'
+               if tid in self.prunable_ids_before else 'id_reused_after_delete')
       elif (self.deleted_any and not c_tok
             and len(self.epoch_ids) == max_id):
         why = 'count_eq_max_id_after_delete'
